@@ -32,7 +32,7 @@ static std::string hex(const std::string &s) {
 // ------------------------------------------------------------------ MiniJSONWriter
 using JW = mp::MiniJSONWriter<fmt::MemoryWriter>;
 static const char *STRS[] = {"x", "name", "c_abs_2_", "a b", "q\"uote", "back\\slash", "tab\there", "end\\", "", "caf\xc3\xa9",
-                             "\x01", "nl\\n", "{[,:]}", "VAR_index", "u\\u0041"};
+                             "\x01", "nl\\n", "{[,:]}", "VAR_index", "u\\u0041", "line\nfeed", "cr\rx", "\x1f\x7f", "\"\\\n\r\t"};
 static const double DBLS[] = {0, -0.0, 1, -1, 0.5, 0.1, 123456.789, 1e30, -1e25, 1e300, DBL_MAX, -DBL_MAX, 5e-324, 1e-6,
                               1.0 / 3, 2.5e-10, 1e15, 1e16, 123456789012.0, INFINITY, -INFINITY, NAN};
 
@@ -129,7 +129,7 @@ static void links_case() {
   mp::pre::One2ManyLink o2m(vp);
   mp::pre::Many2OneLink m2o(vp);
   std::string ops = "X";
-  int nops = 1 + below(14);
+  int nops = below(40) == 0 ? 0 : 1 + below(14);      // sometimes no AddEntry at all: Finish has nothing to export
   int lastk = -1, ls = 0, ld = 0;
   for (int i = 0; i < nops; ++i) {
     int k = below(3);
